@@ -39,7 +39,7 @@ def length_kind(term: P, resolver=None):
         return kinds.pop() if len(kinds) == 1 else None
     if a[0] == "call":
         cn = call_name(a)
-        if cn in ("numpy.array", "numpy.asarray", "numpy.abs", "abs") and a[2]:
+        if cn in ("numpy.array", "numpy.asarray", "numpy.abs", "abs", "numpy.asanyarray", "numpy.ascontiguousarray", "tuple", "list") and a[2]:
             return length_kind(a[2][0], resolver)
         if cn == "numpy.linalg.norm" and a[2]:
             m = a[2][0].as_atom()
